@@ -11,7 +11,7 @@ Line protocol of the secure-session model (domain `sec`).  hex = lower-case hex,
 
   sec m2c <nowNs> <msg>                          → err | ok <key> <mki> <ssrcs> <startROCs> <ROC per ssrc>
   sec c2m <key> <mki> <ssrcs> <rocs>             → err | <msg>     (csb 0, 16 zero bytes of RAND, time stamp 0)
-  sec admit <tls> <udp> <mcast> <tunnel> <trs>   → none | <index of the transport picked>
+  sec pick <tls> <udp> <mcast> <tunnel> <trs>   → none | <index of the transport picked>
   sec setup <tls> <udp> <mcast> <tunnel> <i|p|r> <- | proto.profile> <inuse chans> <X | trs> <B | M> <nowNs> <msg | -> <back 0|1>
                                                  → status <code> | ok <u|m|t> <a|s> <in 0|1> <out 0|1>
   sec cpick <r|s> <n|u|m|t> <a|s> <h264m0> <tunnel>   → refused | req <u|m|t> <a|s> <keymgmt 0|1>
@@ -168,7 +168,7 @@ def mk : IO Handler := do
         | some c => return showMsg (contextToMikey c 0 zeros16 0)
         | none => return "err"
       | _, _, _, _ => return "bad-op"
-    | ["admit", tls, udp, mc, tun, trs] =>
+    | ["pick", tls, udp, mc, tun, trs] =>
       match parseList trs "," parseTr with
       | some ts =>
         let cfg : ServerCfg := { tls := tls == "1", udp := udp == "1", mcast := mc == "1" }
